@@ -215,6 +215,14 @@ var TwoSet = wire.NewSet(NewT, NewT)
 var NotASet = wire.ProviderSet{}
 
 var Unknown = wire.NewSet(Default)
+
+var LoneBinding = wire.Bind(new(I), new(*T))
+
+var LoneValue = wire.Value(7)
+
+var LoneFields = wire.FieldsOf(new(T), "A")
+
+var LoneStruct = wire.Struct(new(T), "*")
 `
 
 // forms: text uses "wire." which is rewritten for dot / renamed imports.
@@ -226,7 +234,7 @@ var c20Item = []string{
 	"wire.Binding{}", "wire.ProvidedValue{}", "wire.StructProvider{}", "wire.StructFields{}", "[]interface{}{NewS}", "interface{}(NewS)", "any(NewS)", "I(nil)", "error(nil)", "C{}", "ps", "one", "iota_",
 	"wire.NewSet(NewS, nil)", "wire.NewSet(nil)", "wire.NewSet(x)", "wire.NewSet(wire.Value)", "wire.Build(NewS)", "wire.NewSet(wire.Build(NewS))", "(wire.NewSet)(NewInt)", "(wire.NewSet(NewInt))",
 	"wire.NewSet(args...)", "wire.NewSet(names)", "conf.Default", "conf.Const", "conf.New", "conf.T{}", "conf.NewT", "conf.PT", "conf.Fn", "os.Stdin", "fmt.Sprint", "errors.New", "conf.T.Method", "conf.Default2", "os.Exit", "errors.Is", "os.Args", "fmt.Errorf", "conf.Bad", "psets.BadSet", "psets.OKSet", "psets.Nested", "pair", "NewSFrom", "fieldName", "fieldName()", "len", "new", "make([]int, 1)", "S.M", "struct{ A int }{1}", "[1]S{}", "chan int(nil)", "(chan int)(nil)", "conf.Dup{}", "&conf.Dup{}", "conf.Unexp{}",
-	"XDup{}", "&XDup{}", "XT{}", "xconf.NewT", "xconf.T{}", "xconf.Dup{}", "&xconf.Dup{}", "xconf.Unexp{}", "xconf.Bad", "xconf.Bad2", "xconf.OKSet", "xconf.BadSet", "xconf.SuperSet", "xconf.DupSet", "xconf.BadBind", "xconf.BadValue", "xconf.BadFields", "xconf.TwoSet", "xconf.NotASet", "xconf.Unknown", "xconf.Default", "xconf.Fn",
+	"xconf.LoneBinding", "xconf.LoneValue", "xconf.LoneFields", "xconf.LoneStruct", "wire.NewSet(xconf.LoneBinding)", "XDup{}", "&XDup{}", "XT{}", "xconf.NewT", "xconf.T{}", "xconf.Dup{}", "&xconf.Dup{}", "xconf.Unexp{}", "xconf.Bad", "xconf.Bad2", "xconf.OKSet", "xconf.BadSet", "xconf.SuperSet", "xconf.DupSet", "xconf.BadBind", "xconf.BadValue", "xconf.BadFields", "xconf.TwoSet", "xconf.NotASet", "xconf.Unknown", "xconf.Default", "xconf.Fn",
 	"wire.NewSet(xconf.SuperSet)", "wire.NewSet(xconf.OKSet, xconf.TwoSet)",
 }
 
